@@ -95,6 +95,11 @@ CHECKS = {
          "Every small structure (<= 3 target/decoy pairs of proteins or groups, <= 4 peptides, unique/shared, ranks with ties; thorough <= 4 pairs, 5 rows) is model-checked, rendered as FASTA + peptide table under several modification / flank notations, and run through picked_protein directly and through assign_confidence end to end; TLC accepts iff there is exactly one entry per pair with a retained unique peptide, won by the owner of a best unique peptide, shared peptides never contribute, and q-values equal the C01 formula over the entries.",
          "Trusted: TLC, FASTA rendering of C16. Known findings F-15b (pair key from the first member name), F-15c (target-only FASTA), F-15d (empty protein level end to end).",
          "DESIGN.md §3 C15"),
+ "C06": ("exploration",
+         "TLC model checking of the contract's own logic (PepContract.tla: a sorted-order return violates it unless the input is sorted; fast = pairwise definitions) + TLC trace validation (PepContractTrace.tla) of estimates recorded from the real peps_from_scores / qvalues_from_scores (on an input and on a permutation of it) and of the PEP column of result files",
+         "The numeric estimators (KDE, NNLS, qvality spline) are not transcribed into TLA+: only their contract is specified. TLC enumerates the case shapes (algorithm x mixture class x tie class x permutation class x size class); inside each shape seeded numpy vectors (>= 50 targets and decoys, 100..1000 PSMs, 5000 thorough) are run through every selectable PEP and q-value algorithm, on the input and on its permuted version; TLC accepts iff one finite value per PSM in range, monotone in score, tie-equal, and aligned with its PSM whatever the input order; the PEP column of result files written by assign_confidence (qvality, kde_nnls) must be non-decreasing down the file and tie-equal.",
+         "Trusted: TLC, quantisation at 1e-9; alignment tolerates up to 1 % of positions differing by more than 1e-3 (numeric noise of ill-conditioned NNLS tails is not a mis-alignment). Known findings F-06c/d/e (from_counts, estimate_pi0_by_slope).",
+         "DESIGN.md §3 C06"),
 }
 PENDING = {}   # id -> reason (not_applicable)
 
